@@ -89,9 +89,9 @@ def run(ctx):
     if drv:
         quick = ctx.tier == "quick"
         for comp in ["uis", "ruis"]:
-            core.trace_component(ctx, comp, ["random", "--seed", ctx.seed, "--cases", 20 if quick else 100, "--progs", 120 if quick else 800],
+            core.trace_component(ctx, comp, ["random", "--seed", ctx.seed, "--cases", 20 if quick else 100, "--progs", 120 if quick else 400],
                                  label=f"{comp}.random", oracle=index_oracle)
-            core.trace_component(ctx, comp, ["exhaustive", "--seed", ctx.seed + 1, "--cases", 2500 if quick else 60000, "--progs", 4 if quick else 14,
+            core.trace_component(ctx, comp, ["exhaustive", "--seed", ctx.seed + 1, "--cases", 2500 if quick else 20000, "--progs", 4 if quick else 14,
                                              "--preempt", 2 if quick else 3], label=f"{comp}.exhaustive", oracle=index_oracle)
         # pool allocator: bucket arithmetic + alloc/free histories over the same index set (sequential; C15's component)
         core.diff_component(ctx, "alloc", ["gen", "--seed", ctx.seed, "--cases", 1500 if quick else 20000, "--len", 30], pC15.classify, label="pool")
